@@ -440,7 +440,7 @@ func All() []*Scenario {
 				}
 				return fmt.Sprintf("complete seen-done=%v", strings.Contains(r.Result, "install DONE")), nil
 			}, Later: lf, LaterWant: lw})
-		l = append(l, &Scenario{Name: "g.open-telnet", Driver: "generic", IsOpen: true, New: newLogin("telnet"),
+		l = append(l, &Scenario{Name: "g.open-telnet", Driver: "generic", IsOpen: true, Quick: true, New: newLogin("telnet"),
 			Op: func(s *Session, _ ...util.Option) (string, error) { return "", openG(s) }, Later: lf, LaterWant: lw})
 		l = append(l, &Scenario{Name: "g.open-ssh", Driver: "generic", IsOpen: true, New: newLogin("ssh"),
 			Op: func(s *Session, _ ...util.Option) (string, error) { return "", openG(s) }, Later: lf, LaterWant: lw})
